@@ -66,7 +66,9 @@ pub fn rc_of(s: &[u8]) -> Vec<u8> {
 
 pub fn gen(rng: &mut Rng, tier: &str) -> String {
     let ps: &[usize] = if tier == "thorough" { &[2, 3, 4, 5, 6] } else { &[2, 3, 4] };
-    let p = *rng.pick(ps);
+    // wide minimizers (p = 8, 10; thorough also 12) with the default permutation only: the identity table has 4^p entries
+    let wide = rng.chance(1, 15);
+    let p = if wide { if tier == "thorough" { *rng.pick(&[8usize, 10, 10, 12]) } else { *rng.pick(&[8usize, 10]) } } else { *rng.pick(ps) };
     let container = *rng.pick(&["bytes", "bytes", "string", "lmer1", "lmer2", "lmer3"]);
     let maxlen = match container {
         "lmer1" => 28,
@@ -106,7 +108,7 @@ pub fn gen(rng: &mut Rng, tier: &str) -> String {
         };
         reads.push(r);
     }
-    let perm = if rng.chance(1, 2) {
+    let perm = if wide || rng.chance(1, 2) {
         "default".to_string()
     } else {
         let n = 1usize << (2 * p);
@@ -118,7 +120,7 @@ pub fn gen(rng: &mut Rng, tier: &str) -> String {
         show_nat_list(&v)
     };
     let rc = rng.chance(1, 2);
-    if rng.chance(1, 12) {
+    if !wide && rng.chance(1, 12) {
         // the deprecated wrapper `simple_scan`: explicit permutation (sometimes one entry short), one read (sometimes shorter than k)
         let n = 1usize << (2 * p);
         let mut v: Vec<usize> = if perm == "default" { (0..n).collect() } else { nat_list(&perm) };
